@@ -85,6 +85,15 @@ def linear_fluxes(S, rep, tier):
         for o in orders:
             ex, sm = interiors(S, find_entry("gen_laplacian_filter_kernel_3d", field_type="scalar", filter_type=ft, filter_order=o))
             chk("laplacian_filter %s order %d" % (ft, o), ex["scalar_field"] - at("scalar_field", zero(3)))
+            # the telescoping increment is all the filter may add: nothing of what its scratch arrays held before the call may
+            # reach the field (a ring of the flux buffer that is not reset is subtracted from the field's ring, whatever it holds)
+            from ..store import roots_of
+            st_ = sm.store
+            key_ = next(k for k in st_.meta if st_.base_name(k) == "scalar_field")
+            stale = sorted(r for r in roots_of(st_, [p.expr for p in st_.pieces(key_)]) if r.split("[")[0] in ("filter_flux_buffer", "field_buffer"))
+            rep.ob("C04.b", "laplacian_filter %s order %d adds nothing from its scratch arrays" % (ft, o), not stale,
+                   "the filtered field depends on the prior content of %s" % stale if stale else "depends on the field only",
+                   key="C04.b|filter|%s|%d|stale|%s" % (ft, o, stale), nontrivial=False)
     _, sm = interiors(S, find_entry("gen_laplacian_filter_kernel_3d", field_type="scalar", filter_type="convolution", filter_order=1))
     for op in sm.trace:
         if op.kind == "Launch" and op.kernel.stencil.reach() > 0:
